@@ -67,6 +67,7 @@ func main() {
 
 	// --- controlled random schedules ---
 	exploreSmall(r)
+	exploreSendClose(r)
 	nprog := hv.Scale(50, 1500)
 	for i := 0; i < nprog; i++ {
 		p := genProgram(r, false, 4, 7)
